@@ -11,6 +11,7 @@ use_repo()
 
 from openfisca_core import periods  # noqa: E402
 from openfisca_core.experimental import MemoryConfig  # noqa: E402
+from openfisca_core.populations import ADD, DIVIDE  # noqa: E402
 from openfisca_core.simulations import SimulationBuilder  # noqa: E402
 
 from . import seams  # noqa: E402
@@ -63,20 +64,95 @@ def apply_knobs(sim, knobs) -> None:
         sim.trace = True
 
 
-def set_input(sim, world: World, var, period, values):
+def set_input(sim, world: World, var, period, values, form=None):
     spec = world.var_specs[var]
     count = sim.populations[spec["entity"]].count
+    array = tile(values, count, spec, world)
+    if form is not None:
+        array = value_form(sim, spec, array, form >> 4)
+        period = period_form(period, form)
     with warnings.catch_warnings():
         warnings.simplefilter("ignore")
-        sim.set_input(var, period, tile(values, count, spec, world))
+        sim.set_input(var, period, array)
 
 
-def apply_op(sim, world: World, op, plan=None):
-    """One top-level API call = one atomic step.  Returns ('ok', value)|('exc', e)."""
+# --- equivalent forms of one call ------------------------------------------------ #
+# The public API accepts the same request in several forms (a period as text, as a
+# Period object, a year as an int; values as an array of the variable's type, of a
+# wider type, as a plain list, enum values as names / members / an EnumArray; a
+# calculation through Simulation.calculate, calculate_output or by calling the
+# population).  The system under test is driven through a form drawn from the
+# operation itself; references (twins, fresh simulations, the plain run) always use
+# the canonical one - so every differential oracle also compares across forms.
+
+
+def form_of(op, salt=0) -> int:
+    import json
+    import zlib
+
+    return zlib.crc32(json.dumps([op, salt], sort_keys=True, default=str).encode())
+
+
+def period_form(text, form):
+    if not isinstance(text, str) or text == "ETERNITY":
+        return text
+    k = form % 4
+    if k == 2:
+        return periods.period(text)
+    if k == 3:
+        return int(text) if len(text) == 4 and text.isdigit() else periods.period(text)
+    return text
+
+
+def value_form(sim, spec, array, k):
+    import numpy
+
+    k %= 4
+    t = spec["type"]
+    if k < 2 or t == "date":
+        return array
+    if t == "float":
+        return array.astype(numpy.float64) if k == 2 else [float(x) for x in array.astype(numpy.float64)]
+    if t == "int":
+        return array.astype(numpy.int64) if k == 2 else [int(x) for x in array]
+    if t == "bool":
+        return [bool(x) for x in array]
+    if t == "str":
+        return [str(x) for x in array] if k == 3 else array
+    if t == "enum":
+        enum = sim.tax_benefit_system.get_variable(spec["name"]).possible_values
+        if k == 2:
+            return enum.encode(array)
+        return [enum[str(x)] for x in array]
+    return array
+
+
+def apply_op(sim, world: World, op, plan=None, form=None):
+    """One top-level API call = one atomic step.  Returns ('ok', value)|('exc', e).
+    form: None for the canonical form of the call, else an int choosing an equivalent one."""
     kind = op[0]
     CTX.begin(plan)
     with warnings.catch_warnings():
         warnings.simplefilter("ignore")
+        if form is not None and kind in ("calculate", "calculate_add", "calculate_divide", "get_array", "delete_arrays"):
+            per = period_form(op[2], form) if len(op) > 2 else None
+            how = (form >> 4) % 4
+            spec = world.var_specs.get(op[1])
+            if kind == "calculate":
+                if how == 2 and spec is not None:
+                    # (the way formulas-outside-formulas are written: simulation.household("rent", period))
+                    return _guard(lambda: getattr(sim, spec["entity"])(op[1], per))
+                if how == 3:
+                    return _guard(lambda: sim.calculate_output(op[1], per))
+                return _guard(lambda: sim.calculate(op[1], per))
+            if kind in ("calculate_add", "calculate_divide"):
+                if how >= 2 and spec is not None:
+                    option = ADD if kind == "calculate_add" else DIVIDE
+                    return _guard(lambda: getattr(sim, spec["entity"])(op[1], per, options=[option]))
+                return _guard(lambda: getattr(sim, kind)(op[1], per))
+            if kind == "get_array":
+                return _guard(lambda: sim.get_array(op[1], per))
+            return _guard(lambda: sim.delete_arrays(op[1], per))
         if kind == "calculate":
             return _guard(lambda: sim.calculate(op[1], op[2]))
         if kind == "calculate_add":
@@ -84,7 +160,7 @@ def apply_op(sim, world: World, op, plan=None):
         if kind == "calculate_divide":
             return _guard(lambda: sim.calculate_divide(op[1], op[2]))
         if kind == "set_input":
-            return _guard(lambda: set_input(sim, world, op[1], op[2], op[3]))
+            return _guard(lambda: set_input(sim, world, op[1], op[2], op[3], form))
         if kind == "delete_arrays":
             return _guard(lambda: sim.delete_arrays(op[1], op[2] if len(op) > 2 else None))
         if kind == "get_array":
